@@ -154,36 +154,33 @@ def run(chk):
     pinit = prog.method(pooled, "__init__")
     shared = [o for o in copts if pinit.param(o) is not None]
     r3.floor("options shared by Client and PooledClient", len(shared), 14)
-    cc = prog.method(pooled, "_create_client")
-    ctor = [c for c in walk_no_nested(cc.node) if isinstance(c, ast.Call) and is_self_attr(c.func, "client_class")]
-    if len(ctor) != 1:
-        raise AnalysisError("C16.R3: expected one self.client_class(...) call in PooledClient._create_client, found %d" % len(ctor))
-    kw = {k.arg: k.value for k in ctor[0].keywords if k.arg}
-    assigned = {}
-    for n in walk_no_nested(pinit.node):
-        if isinstance(n, ast.Assign):
-            for t in n.targets:
-                if is_self_attr(t):
-                    assigned.setdefault(t.attr, []).append(n.value)
+    # __init__ followed by _create_client, interpreted with the constructor parameters as symbols: what the client class
+    # is finally called with, on every path, whatever local names, helper tables or `**mappings` carry it there
+    from . import pooled as pooled_an
+
+    pinit2, cc, created = pooled_an.created_client_options(prog)
+    if not created:
+        raise AnalysisError("C16.R3: no call of the client class is reached through PooledClient.__init__ + _create_client")
     for o in shared:
         if o in EXEMPT_OPTIONS["PooledClient"]:
             r3.note("PooledClient option `%s` exempt: %s" % (o, EXEMPT_OPTIONS["PooledClient"][o]))
             continue
-        v = kw.get(o)
-        ok_fwd = is_self_attr(v, o) if v is not None else False
-        vals = assigned.get(o, [])
-        ok_store = any(_derives_from(x, o) for x in vals)
         msg = None
-        if v is None:
-            msg = "_create_client does not pass `%s` to the clients it creates: the option is accepted by PooledClient and silently ignored" % o
-        elif not ok_fwd:
-            msg = "_create_client passes %s=%s instead of self.%s" % (o, node_src(v), o)
-        elif not ok_store:
-            msg = "PooledClient.__init__ does not store its `%s` parameter in self.%s (%s)" % (o, o, [node_src(x) for x in vals])
-        r3.expect(msg is None, "PooledClient option %s: __init__ parameter -> self.%s -> client_class(%s=...)" % (o, o, o), "PooledClient:option-not-propagated:%s" % o, msg or "", fn=cc if msg and "_create_client" in msg else pinit, node=ctor[0])
-    # serde: serializer/deserializer folded
-    v = kw.get("serde")
-    r3.expect(is_self_attr(v, "serde"), "PooledClient forwards serde=self.serde", "PooledClient:option-not-propagated:serde", "serde is not forwarded", fn=cc, node=ctor[0])
+        for pos, kw in created:
+            v = kw.get(o, "<not passed>")
+            if v == "<not passed>":
+                msg = "the clients PooledClient creates are not given `%s`: the option is accepted by PooledClient and silently ignored" % o
+            elif isinstance(v, pooled_an.P) and v.name == o:
+                continue
+            elif isinstance(v, pooled_an.Derived) and o in v.names:
+                continue  # normalised first (e.g. a str prefix encoded to bytes)
+            elif o == "serde" and isinstance(v, pooled_an.Derived) and v.names <= {"serde", "serializer", "deserializer"}:
+                continue  # the deprecated serializer/deserializer pair folded into a serde
+            else:
+                shown = "its `%s` parameter" % v.name if isinstance(v, pooled_an.P) else ("a value computed from %s" % sorted(v.names) if isinstance(v, pooled_an.Derived) else str(v))
+                msg = "the clients PooledClient creates get %s=%s instead of the PooledClient's own `%s` option" % (o, shown, o)
+            break
+        r3.expect(msg is None, "PooledClient option %s: constructor parameter -> client_class(%s=...)" % (o, o), "PooledClient:option-not-propagated:%s" % o, msg or "", fn=cc, node=cc.node)
     # HashClient and AWS sibling
     for cname in ("HashClient", "AWSElastiCacheHashClient"):
         cls = prog.cls(cname)
